@@ -24,8 +24,15 @@
                              no grey rendering (nothing is sent)
      D6 CursorMove 0 0, Scroll 0, EraseChars 0, Image, ImageErase = nothing (images are
                              drawn by the image handlers, not by this encoder)
-     D7 Termcap []         = Termcap [""] (the wire format cannot tell them apart)
-     D8 Char DEL, Char ST  = nothing (a terminal ignores them in ground state)
+     D7 Termcap []         = Termcap [""] = the request with ONE EMPTY name (OXtgettcap [[]]): on the wire the
+                             names are joined by `;`, so the empty list cannot be told from the list
+                             holding the empty name; we read the bytes as the grammar does
+     D8 Char of a control  Char DEL and Char ST (U+009C) = nothing (a terminal ignores them in ground
+                             state); Char of any other C0 / C1 control (BEL, BS, HT, LF, CR, SO/SI, CAN,
+                             SUB, NEL, SS2/SS3, DECID, ..) = "the terminal executes control c" (OExec c):
+                             WHICH control function that is and what it does is not interpreted further
+     D10 Char of an introducer (ESC, C1 DCS SOS CSI OSC PM APC) = show U+FFFD: such a character cannot be
+                             displayed and must not open a sequence
      D9 Raw bytes          = whatever the bytes mean (tautological; outside self-containedness) *)
 From Coq Require Import List NArith ZArith Bool.
 From SNT Require Import Encoder.Decimal Encoder.Utf8 Encoder.Encode Encoder.VT.
@@ -52,12 +59,11 @@ Definition uline_of_style (u : ustyle) : uline :=
   | UDotted => LDotted | UDashed => LDashed
   end.
 
-(* KNOWN FINDING C05-char-introducer.  `Char(c)` is written as the bare character.  For the
-   seven characters that OPEN a control sequence or control string -- ESC, and the C1
-   controls DCS (U+0090), SOS (U+0098), CSI (U+009B), OSC (U+009D), PM (U+009E), APC
-   (U+009F) -- the output is not a self-contained sequence: the parser is left inside an
-   escape sequence and swallows what follows (Props/C05.v, C05_char_introducer_refuted).
-   They are outside the domain of the meaning theorems. *)
+(* The seven characters that OPEN a control sequence or control string: ESC and the C1 controls
+   DCS (U+0090), SOS (U+0098), CSI (U+009B), OSC (U+009D), PM (U+009E), APC (U+009F).  Written
+   bare they leave the parser inside an escape sequence that swallows what follows (the defect
+   fixed by crate commit 73d8d1c, Props/C05.v C05_char_introducer_refuted_before_fix); they cannot
+   be put on a screen, so `Char` of one of them means: show U+FFFD (decision D10). *)
 Definition char_introducer (c : N) : bool :=
   (c =? 27) || (c =? 144) || (c =? 152) || (c =? 155) || (c =? 157) || (c =? 158) || (c =? 159).
 
@@ -130,7 +136,8 @@ Section Denote.
     | Char c =>
         (* a graphic character is printed; a C0 / C1 control is executed; DEL and a stray ST
            (U+009C) are ignored by a terminal *)
-        if (c =? 127) || (c =? 156) then []
+        if char_introducer c then [OPrint 65533]
+        else if (c =? 127) || (c =? 156) then []
         else if is_c0 c || is_c1 c then [OExec c]
         else [OPrint c]
     | Face f => [OSgr (face_trans (cp_depth cp) f)]
@@ -194,7 +201,7 @@ Definition text_ok (cs : list N) : bool := forallb (fun c => scalar_ok c && negb
 
 Definition cmd_ok (c : cmd) : bool :=
   match c with
-  | Char c => scalar_ok c && negb (char_introducer c)
+  | Char c => scalar_ok c
   | Face f =>
       (* FaceAttrs bits: every public operation packs (underline style, flags), so the
          underline code is 0..5; the codes 6 and 7 cannot be constructed *)
